@@ -17,7 +17,7 @@ TECHNIQUE = 'Hypothesis rule-based state machine interleaving several IpmWriter/
 RULE = ('State machine: rules new_writer (own BytesIO, encoding from latin_1/cp500/cp037/ascii/cp1252, blocked or not, packaged or '
         'generated configuration), write(writer, message), close(writer), open_reader(file), read(reader); Hypothesis interleaves '
         'them so several writers and readers are live at once. Every read must return the reader\'s own next message (C01 '
-        'equivalence, masking applied) and reader.record_number must equal its own count + 1; a reader must end exactly at the end '
+        'equivalence, masking applied) and reader.record_number must advance with its own count only (same base for every reader); a reader must end exactly at the end '
         'of its file and is then retired. @given: lists of 1..400 messages (encoded size <= 6000 by the reference encoder) built '
         'from up to 10 distinct drawn messages, written and read back in VBS and 1014 form. Non-trivial = >= 2 records of '
         'different shape or a file longer than one block (lists); >= 2 instances live at the same step (machine); distinct by digest.')
@@ -166,6 +166,7 @@ class World:
         self.max_live = 0
         self.steps = 0
         self.steps_multi = 0
+        self.rn_base = None
 
     def _live(self):
         return len(self.writers) + sum(1 for r in self.readers.values() if not r['done'])
@@ -220,9 +221,14 @@ class World:
             return None
         fl = self.files[rd['fid']]
         model = fl['model']
-        if rd['r'].record_number != rd['pos'] + 1:
-            return 'record-number-influenced', (f'reader {rid} on file {rd["fid"]} has delivered {rd["pos"]} records but its '
-                                                f'record_number is {rd["r"].record_number}')
+        rn = getattr(rd['r'], 'record_number', None)
+        if isinstance(rn, int):
+            # whatever base the counter uses, it must be a function of this reader's own progress only
+            if self.rn_base is None:
+                self.rn_base = rn - rd['pos']
+            elif rn - rd['pos'] != self.rn_base:
+                return 'record-number-influenced', (f'reader {rid} on file {rd["fid"]} has delivered {rd["pos"]} records but its '
+                                                    f'record_number is {rn} (other readers: delivered + {self.rn_base})')
         try:
             out = next(rd['r'])
         except StopIteration:
